@@ -152,7 +152,25 @@ def run_program(case, check, ctx=None):
                     p.get_compiled_pattern(discard_after=op[2])
                 else:
                     t = texts[op[2] % len(texts)]
-                    fps.append(['m', pat.behaviour(p, t)])
+                    beh = pat.behaviour(p, t)
+                    fps.append(['m', beh])
+                    if check:
+                        # the same value rebuilt from fresh leaves (never compiled, never used) answers every question alike
+                        try:
+                            fresh_beh = pat.behaviour(dsl.build(asts[i]), t)
+                        except Exception as e:  # noqa: BLE001 - not rebuildable stand-alone: nothing to compare with
+                            if type(e).__name__ == 'CaseTimeout':
+                                raise
+                            fresh_beh = None
+                        if fresh_beh is not None and json.loads(json.dumps(beh, default=repr)) != json.loads(json.dumps(fresh_beh, default=repr)):
+                            d = next(((a, b) for a, b in zip(beh, fresh_beh) if a != b), None)
+                            v = Violation('history_dependent_behaviour', case, f'step {step}: member m{i} = {dsl.render(asts[i])} (pattern {str(p)!r}) answers '
+                                          f'{str(d[0])[:120]} on {t!r}; the same expression rebuilt from fresh leaves answers {str(d[1])[:120]}')
+                            fid = findings.classify(ID, v.kind, case)
+                            if fid and ctx is not None:
+                                ctx.known(fid)
+                            else:
+                                raise v
                 touched.add(i)
             except re.error:
                 pass        # uncompilable member (C03's business)
@@ -509,6 +527,28 @@ def alike_cases(seed):
         yield {'mode': 'alike', 'alike': alike[:7], 'partners': partners[:4]}
 
 
+def chain_cases():
+    """Complete grid of two-step chains on one value: leaf -> unary operation -> (nothing | compile | get_compiled_pattern kept) ->
+    unary operation, every result compared with a fresh rebuild through the whole matching API, on texts that differ from the
+    pattern in case only. What one operation leaves on its result (a retained compiled pattern, flags, names) must not leak into
+    the next operation's result."""
+    unary = [['grp', 'class', -1, False], ['grp', 'method', -1, False], ['grp', 'class', -1, True], ['grp', 'method', -1, True],
+             ['cap', 'class', -1, None], ['cap', 'method', -1, 'n'], ['cap', 'method', -1, 'g2'],
+             ['q', 'opt', 'method', -1, 0, None, True], ['q', 'exactly', 'class', -1, 1, None, True], ['q', 'exactly', 'method', -1, 2, None, True],
+             ['q', 'plus', 'class', -1, 0, None, False], ['anchor', 'lstart', 'method', -1], ['anchor', 'end', 'class', -1],
+             ['cat', 'method', -1, 0], ['alt', 'method', -1, 0], ['enc', 'method', -1, 0]]
+    states = [None, ['compile', -1], ['gcp', -1, False], ['gcp', -1, True]]
+    leaves = [['lit', 'abc', True], ['cls', ['named', 'AnyLowercaseLetter']], ['alt', 'class', [['lit', 'ab', True], ['lit', 'c', False]]],
+              ['lit', 'a.b', True]]
+    texts = ['abc', 'ABC', 'aBc ab C', 'xabcabc\nAB', 'a.b A.B', '']
+    for leaf in leaves:
+        for u1 in unary:
+            for st_ in states:
+                for u2 in unary:
+                    ops = [u1] + ([st_] if st_ else []) + [u2, ['match', -1, 0], ['match', -1, 1]]
+                    yield {'leaves': [['lit', 'x', True], leaf], 'ops': ops, 'texts': texts, 'deep': False}
+
+
 def check_case(case, ctx):
     if case.get('mode') == 'meta':
         return check_meta(case, ctx)
@@ -559,7 +599,7 @@ def leaf_strategy():
 
 
 def op_strategy():
-    idx = st.integers(0, 30)
+    idx = st.one_of(st.integers(0, 30), st.integers(0, 30), st.just(-1), st.just(-1), st.just(-2))       # -1: the latest result, so that chains of operations on one value form
     sp2 = st.sampled_from(['class', 'method'])
     return st.one_of(
         st.tuples(st.just('cat'), st.sampled_from(['class', 'method', 'method_left', 'op']), idx, idx).map(list),
@@ -596,15 +636,20 @@ def strategy():
 
 
 def shards(tier):
-    n = 11 if tier == 'quick' else 51
+    n = 10 if tier == 'quick' else 50
     out = [{'examples': 350 if tier == 'quick' else 3000, 'replay_seeds': 2 if tier == 'quick' else 4} for _ in range(n)]
-    out += [{'mode': 'alike'}]
+    out += [{'mode': 'alike'}, {'mode': 'chains'}]
     out += [{'mode': 'meta', 'fresh_per': 'case' if tier == 'quick' else ('call' if i % 2 else 'case'),
              'examples': 700 if tier == 'quick' else 2500} for i in range(4 if tier == 'quick' else 12)]
     return out
 
 
 def run_shard(spec, ctx):
+    if spec.get('mode') == 'chains':
+        from pbt.common import run_enumeration
+        ctx.programs = None
+        run_enumeration(ctx, chain_cases(), check_case, 'two-step unary chains on one value x compile states (4 leaves x 16 x 4 x 16)')
+        return
     if spec.get('mode') == 'alike':
         from pbt.common import run_enumeration
         run_enumeration(ctx, alike_cases(ctx.seed * 31 + ctx.shard_index), check_case, 'classes that print alike x partners x orders (6 shuffles)')
